@@ -311,6 +311,11 @@ def check_alloc(prog, ctx):
                     and call.args[0].value in CREATION:
                 name = call.args[0].value
                 via_do = True
+            elif src(call.func) in ("functools.partial", "partial") and len(call.args) >= 2 and src(call.args[0]) == "ar.do" \
+                    and isinstance(call.args[1], ast.Constant) and call.args[1].value in CREATION:
+                # functools.partial(ar.do, "zeros", like=<block>): the allocation site is where its keywords are fixed
+                name = call.args[1].value
+                via_do = True
             elif isinstance(call.func, (ast.Name, ast.Attribute, ast.Call)):
                 name = pv.is_allocator(f, call.func)
             if name is None:
